@@ -17,7 +17,9 @@
   Answer: `conf=<bool> image=<hex> model=<events> mfail=<kind> spec=<events> mbuf=<hex|-> sbuf=<hex|->`
   with one event per executed call, `<path>=<result>@<cursor>`:
   result `v<hex>` (value), `a<addr>` (view address), `-` (nothing returned),
-  `e<addr>` (entry created by `*it`); the list ends with `end@<cursor>`, or
+  `e<addr>` (entry created by `*it`), `n<size>` (a range object was obtained: path `<group>#<i>`,
+  its `.size()`), `x1`/`x0` (after the loop over range `<group>#<i>end`: the iterator has / has not
+  reached `end()`); the list ends with `end@<cursor>`, or
   with `ASSERT` where the sequence is stopped by the assertion handler, `UNSPEC`
   where the specification says nothing (entry created from a cursor that is not
   at an entry start), `BAD` for a call that does not exist.
@@ -30,11 +32,7 @@ import Sbepp.Spec.CursorProtocol
 namespace Sbepp.Drive.C04
 open Sbepp Sbepp.Schema Sbepp.Gen Sbepp.Cursor Sbepp.Rt.Cursor Sbepp.Spec.CursorProtocol Sbepp.Observe
 
-inductive RSpec
-  | all
-  | sub (pos : Nat)
-  | subn (pos count : Nat)
-  deriving Repr, Inhabited
+abbrev RSpec := RangeKind
 
 inductive Item
   | call (name : String) (w : Wrapper)
@@ -69,7 +67,7 @@ where
     | _ => none
   parseRange (e : SExp) : Option (RSpec × List (List Item)) :=
     match e with
-    | .list (.atom "all" :: bodies) => (bodies.mapM parseBody).map (fun b => (RSpec.all, b))
+    | .list (.atom "all" :: bodies) => (bodies.mapM parseBody).map (fun b => (RangeKind.all, b))
     | .list (.atom "sub" :: .atom p :: bodies) =>
       match p.toNat?, bodies.mapM parseBody with
       | some p, some b => some (.sub p, b)
@@ -193,23 +191,22 @@ partial def runItemsM (bo : ByteOrder) (c : CLevel) (g : GLevel) (v : LView) (pf
             | .ok st =>
               let s1 := { s with buf := st.buf, cur := st.cur, ev := event (pfx ++ name) (resStr bo st.res) st.cur :: s.ev }
               match st.res with
-              | .view gaddr => ranges.foldl (fun s2 (rs, bodies) => runRange bo cg gg v gaddr (pfx ++ name) rs bodies s2) s1
+              | .view gaddr => ranges.zipIdx.foldl (fun s2 ((rs, bodies), ri) => runRange bo cg gg v gaddr (pfx ++ name) ri rs bodies s2) s1
               | _ => if ranges.isEmpty then s1 else s1.bad
           | _, _ => s.bad
         | _ => s.bad
     runItemsM bo c g v pfx rest s'
 where
-  runRange (bo : ByteOrder) (cg : CGroup) (gg : GGroup) (v : LView) (gaddr : Nat) (gpath : String) (rs : RSpec)
-      (bodies : List (List Item)) (s : MS) : MS :=
+  runRange (bo : ByteOrder) (cg : CGroup) (gg : GGroup) (v : LView) (gaddr : Nat) (gpath : String) (ri : Nat)
+      (rs : RSpec) (bodies : List (List Item)) (s : MS) : MS :=
     if s.fail.isSome then s else
-    let r := match rs with
-      | .all => cursorRange bo s.buf v.endp gg.dim gaddr
-      | .sub p => cursorSubrange1 bo s.buf v.endp gg.dim gaddr p
-      | .subn p n => cursorSubrange2 bo s.buf v.endp gg.dim gaddr p n
-    match r with
+    if s.atLimit then s.unspec else
+    match mkRange bo s.buf v.endp gg.dim gaddr rs with
     | .error f => s.stop f
     | .ok r =>
-      (bodies.zipIdx.foldl (fun (s : MS) (body, j) =>
+      -- the range object: its `.size()`
+      let s := { s with ev := event (gpath ++ "#" ++ toString ri) ("n" ++ toString r.len) s.cur :: s.ev }
+      let s := (bodies.zipIdx.foldl (fun (s : MS) (body, j) =>
         if s.fail.isSome || j ≥ r.len then s else
         if s.atLimit then s.unspec else
         match derefEntry gg.level.emptyCtor v.endp s.cur r.bl with
@@ -219,6 +216,10 @@ where
           let path := gpath ++ "[" ++ toString idx ++ "]"
           let s1 := { s with cur := c', ev := event path ("e" ++ toString ev.addr) c' :: s.ev }
           runItemsM bo cg.level gg.level ev (path ++ ".") body s1) s)
+      -- after the loop: has the iterator reached `end()`?
+      if s.fail.isSome then s
+      else if s.atLimit then s.unspec
+      else { s with ev := event (gpath ++ "#" ++ toString ri ++ "end") (if bodies.length ≥ r.len then "x1" else "x0") s.cur :: s.ev }
 
 /-! ### specification side -/
 
@@ -280,26 +281,22 @@ partial def runItemsS (bo : ByteOrder) (c : CLevel) (lv : LVal) (lvl : Nat) (pfx
             let o := specGet geo (.group k) w s.cur
             let s1 := s.apply bo (pfx ++ name) o
             match o with
-            | .ok (.view _) _ => ranges.foldl (fun s2 (rs, bodies) => runRangeS bo cg gv gg.hdrEnd (pfx ++ name) rs bodies s2) s1
+            | .ok (.view _) _ => ranges.zipIdx.foldl (fun s2 ((rs, bodies), ri) => runRangeS bo cg gv gg.hdrEnd (pfx ++ name) ri rs bodies s2) s1
             | .ok _ _ => if ranges.isEmpty then s1 else s1.halt "BAD"
             | _ => s1
           | _, _, _ => s.halt "BAD"
         | _ => s.halt "BAD"
     runItemsS bo c lv lvl pfx rest s'
 where
-  runRangeS (bo : ByteOrder) (cg : CGroup) (gv : GVal) (first : Nat) (gpath : String) (rs : RSpec)
+  runRangeS (bo : ByteOrder) (cg : CGroup) (gv : GVal) (first : Nat) (gpath : String) (ri : Nat) (rs : RSpec)
       (bodies : List (List Item)) (s : SS) : SS :=
     if s.stop then s else
-    let n := gv.entries.length
-    -- documented preconditions of cursor_subrange
-    let r : Option (Nat × Nat) := match rs with
-      | .all => some (0, n)
-      | .sub p => if p < n then some (p, n - p) else none
-      | .subn p cnt => if p < n ∧ cnt ≤ n - p then some (p, cnt) else none
-    match r with
+    -- documented ranges and preconditions of cursor_range / cursor_subrange
+    match rangeSpec gv.entries.length rs with
     | none => s.halt "ASSERT"
     | some (start, len) =>
-      (bodies.zipIdx.foldl (fun (s : SS) (body, j) =>
+      let s := { s with ev := event (gpath ++ "#" ++ toString ri) ("n" ++ toString len) s.cur :: s.ev }
+      let s := (bodies.zipIdx.foldl (fun (s : SS) (body, j) =>
         if s.stop || j ≥ len then s else
         let idx := start + j
         let expected := entryStartTree bo cg.level.erase gv.entries idx first
@@ -311,6 +308,8 @@ where
           let path := gpath ++ "[" ++ toString idx ++ "]"
           let s1 := { s with cur := c', ev := event path ("e" ++ toString expected) c' :: s.ev }
           runItemsS bo cg.level e expected (path ++ ".") body s1) s)
+      if s.stop then s
+      else { s with ev := event (gpath ++ "#" ++ toString ri ++ "end") (if bodies.length ≥ len then "x1" else "x0") s.cur :: s.ev }
 
 /-! ### `cursor (layout (schema ...))`: the model's view of the generated cursor accessors -/
 
